@@ -98,8 +98,9 @@ func usablePatterns() (ok []patInfo, skipped []string) {
 // extraCatalogue: the Contains() outer patterns / sub-patterns that load (each outer with a fixed sub-pattern, each
 // sub-pattern under a fixed outer pattern).
 type extraCatalogue struct {
-	outers []struct{ Pat, Var string }
-	subs   []string
+	outers  []struct{ Pat, Var string }
+	subs    []string
+	pkgSubs []string // the sub-patterns with a package-qualified callee
 }
 
 func usableContains() (cat *extraCatalogue, skipped []string) {
@@ -130,6 +131,9 @@ func usableContains() (cat *extraCatalogue, skipped []string) {
 			continue
 		}
 		cat.subs = append(cat.subs, sub)
+		if isPkgPat(sub) {
+			cat.pkgSubs = append(cat.pkgSubs, sub)
+		}
 	}
 	return cat, skipped
 }
@@ -303,6 +307,7 @@ type tRule struct {
 //  2: a group without Matcher.Import after a group that binds the same package names, for a standard and a plain name
 //  3: the reverse order (what the patterns of a group mean must not depend on the groups around it)
 //  4: list rules whose filter runs list sub-patterns while the node's matches are still being enumerated
+//  5: Contains() sub-patterns with a package-qualified callee in groups with and without imports
 var targetedSets = []struct {
 	Theme string
 	Rules []tRule
@@ -315,6 +320,8 @@ var targetedSets = []struct {
 		{"util.G($x)", "const", "d", nil}, {"util.G($x)", "", "e", []string{"example.com/wk/a/util"}}, {"util.G($x)", "", "f", nil}}},
 	{"contains", []tRule{{"probe($x); $next", "contains next for $*_ { $*_ }", "a", nil}, {"$x, $y", "contains y $_($*_)", "b", nil},
 		{"$f($*args)", "contains args $_ + $_", "c", nil}}},
+	{"pkgs", []tRule{{"$x; $y", "contains y util.F()", "a", []string{"example.com/wk/b/util"}}, {"$f($*args)", "contains args rand.Intn($*_)", "b", []string{"example.com/wk/rand"}},
+		{"$x; $y", "contains y util.F()", "c", nil}, {"{ $*body }", "contains body rand.Int($*_); util.F()", "d", []string{"crypto/rand", "example.com/wk/a/util"}}}},
 }
 
 // genRuleSet renders an abstract rule description both to DSL source files and to the oracle's rule list (load order).
@@ -385,7 +392,7 @@ func genRuleSet(rng *rand.Rand, pats []patInfo, cat *extraCatalogue, bundles map
 		files[name] = sb.String()
 		return files, []string{name}, rules, []int{0}, ts.Theme
 	}
-	theme = []string{"", "", "", "pkgs", "pkgs", "contains", "contains", "pkgs+contains"}[rng.Intn(8)]
+	theme = []string{"", "", "", "pkgs", "pkgs", "contains", "contains", "pkgs+contains", "pkgs+contains"}[rng.Intn(9)]
 	isPkgs, isContains := strings.Contains(theme, "pkgs"), strings.Contains(theme, "contains")
 	// a load history: 1-4 Load calls; each file is one of
 	//   syntax    groups of Match rules
@@ -474,6 +481,9 @@ func genRuleSet(rng *rand.Rand, pats []patInfo, cat *extraCatalogue, bundles map
 							o = cat.outers[rng.Intn(12)%len(cat.outers)] // the list patterns
 						}
 						sub = cat.subs[rng.Intn(len(cat.subs))]
+						if (isPkgs || len(gimports) > 0) && len(cat.pkgSubs) > 0 && rng.Intn(2) == 0 {
+							sub = cat.pkgSubs[rng.Intn(len(cat.pkgSubs))] // a sub-pattern whose meaning depends on the group's imports
+						}
 						if isPkgs || len(gimports) > 0 || (!isPkgPat(o.Pat) && !isPkgPat(sub)) {
 							break
 						}
